@@ -3,8 +3,9 @@
    Every request kind re-establishes the invariant Clean; from a Clean state the answer to every
    count / SAT / core / per-feature table / seeded sampling / marked-nodes request is the answer a
    fresh instance gives.  Enumeration answers depend on the history only through the cursor.
-   The cursor is keyed by the assumption list only and shared by all models of the process:
-   refuted (K2). *)
+   The cursor belongs to the loaded model (repair F21): requests to another model of the process
+   change nothing (cursor_per_model); the code before the repair shared one cursor map between
+   all models of the process (finding K2): cursor_shared_refuted_v0. *)
 From Coq Require Import List ZArith Bool Lia Permutation.
 From DD Require Import Model.Circuit Model.Query Model.Enumerate
      Proofs.PassLemmas Proofs.Enum Proofs.Semantics Proofs.CountsA Proofs.QueryDefs
@@ -279,8 +280,90 @@ Proof.
   exact (run_req_answer C n q _ cur1 _ cur2 HQ Hne Hq (fresh_clean C) (fresh_clean C)).
 Qed.
 
+(* ---------- two models in one process: who owns the cursor ---------- *)
+(* A process with two loaded models.  Since the repair F21 the enumeration cursor is a field of the
+   loaded model (Ddnnf.enumeration_cursor): the state of the process is two instance states side
+   by side, each with ITS OWN cursor, and a request names the model it goes to.  The code before
+   the repair (`_v0`) had ONE cursor map for the process (the static ENUMERATION_CACHE, keyed by
+   the assumption set only): two scratch states, one cursor. *)
+Inductive which := M1 | M2.
+Definition is_m (w w' : which) : bool :=
+  match w, w' with M1, M1 | M2, M2 => true | _, _ => false end.
+
+Definition proc := ((scratch * cursor) * (scratch * cursor))%type.
+
+Definition proc_step (d1 d2 : ddnnf) (p : proc) (wq : which * req) : proc * answer :=
+  match fst wq with
+  | M1 => let '(st', a) := run_req d1 (fst p) (snd wq) in ((st', snd p), a)
+  | M2 => let '(st', a) := run_req d2 (snd p) (snd wq) in ((fst p, st'), a)
+  end.
+
+Fixpoint proc_run (d1 d2 : ddnnf) (p : proc) (h : list (which * req)) : proc * list (which * answer) :=
+  match h with
+  | [] => (p, [])
+  | wq :: r =>
+    let '(p', a) := proc_step d1 d2 p wq in
+    let '(p'', l) := proc_run d1 d2 p' r in (p'', (fst wq, a) :: l)
+  end.
+
+(* one model alone in a process *)
+Fixpoint run_reqs_ans (d : ddnnf) (st : scratch * cursor) (qs : list req) : (scratch * cursor) * list answer :=
+  match qs with
+  | [] => (st, [])
+  | q :: r =>
+    let '(st', a) := run_req d st q in
+    let '(st'', l) := run_reqs_ans d st' r in (st'', a :: l)
+  end.
+
+(* the requests / answers that concern one of the two models *)
+Definition only {X} (w : which) (l : list (which * X)) : list X :=
+  map snd (filter (fun x => is_m w (fst x)) l).
+
+(* C16, the cursor part: whatever is asked of the OTHER model, in whatever interleaving, this
+   model's state (scratch AND cursor) and all its answers - enumeration pages included - are
+   those of a process in which only this model exists. *)
+Theorem cursor_per_model d1 d2 (h : list (which * req)) : forall st1 st2,
+  let '(p', ans) := proc_run d1 d2 (st1, st2) h in
+  (fst p', only M1 ans) = run_reqs_ans d1 st1 (only M1 h) /\
+  (snd p', only M2 ans) = run_reqs_ans d2 st2 (only M2 h).
+Proof.
+  induction h as [|[w q] r IH]; intros st1 st2; [split; reflexivity|].
+  cbn [proc_run]. unfold proc_step. cbn [fst snd].
+  destruct w.
+  - destruct (run_req d1 st1 q) as [st1' a] eqn:E1.
+    specialize (IH st1' st2). destruct (proc_run d1 d2 (st1', st2) r) as [p'' l].
+    destruct IH as [IH1 IH2]. unfold only in *. cbn [filter fst is_m map snd run_reqs_ans].
+    rewrite E1. split.
+    + destruct (run_reqs_ans d1 st1' _) as [st'' l1]. now injection IH1 as <- <-.
+    + exact IH2.
+  - destruct (run_req d2 st2 q) as [st2' a] eqn:E2.
+    specialize (IH st1 st2'). destruct (proc_run d1 d2 (st1, st2') r) as [p'' l].
+    destruct IH as [IH1 IH2]. unfold only in *. cbn [filter fst is_m map snd run_reqs_ans].
+    rewrite E2. split.
+    + exact IH1.
+    + destruct (run_reqs_ans d2 st2' _) as [st'' l2]. now injection IH2 as <- <-.
+Qed.
+
+(* ---------- the code before the repair: the cursor is shared between models (K2) ---------- *)
+Definition proc_v0 := (scratch * scratch * cursor)%type.
+
+Definition proc_step_v0 (d1 d2 : ddnnf) (p : proc_v0) (wq : which * req) : proc_v0 * answer :=
+  let '(s1, s2, c) := p in
+  match fst wq with
+  | M1 => let '((s1', c'), a) := run_req d1 (s1, c) (snd wq) in ((s1', s2, c'), a)
+  | M2 => let '((s2', c'), a) := run_req d2 (s2, c) (snd wq) in ((s1, s2', c'), a)
+  end.
+
+Fixpoint proc_run_v0 (d1 d2 : ddnnf) (p : proc_v0) (h : list (which * req)) : proc_v0 * list (which * answer) :=
+  match h with
+  | [] => (p, [])
+  | wq :: r =>
+    let '(p', a) := proc_step_v0 d1 d2 p wq in
+    let '(p'', l) := proc_run_v0 d1 d2 p' r in (p'', (fst wq, a) :: l)
+  end.
+
 (* ---------- the cursor is shared between models: refuted (K2) ---------- *)
-(* ENUMERATION_CACHE is one process-global map keyed by the assumption set (the sorted, de-duplicated list) only.
+(* ENUMERATION_CACHE was one process-global map keyed by the assumption set (the sorted, de-duplicated list) only.
    x1 <-> x2 (2 models) and "x1, x2 free" (4 models) over the same two features, no assumptions,
    page size 1: after one page of the first model the second model's first page is its SECOND
    configuration, not the one a process that only loaded the second model returns. *)
@@ -288,6 +371,25 @@ Definition c16_iff : circuit :=
   [Lit 1; Lit (-1); Lit 2; Lit (-2); And [0;2]%nat; And [1;3]%nat; Or [4;5]%nat].
 Definition c16_free : circuit :=
   [Lit 1; Lit (-1); Or [0;1]%nat; Lit 2; Lit (-2); Or [3;4]%nat; And [2;5]%nat].
+
+(* the same witness as a history of the process: model 1 hands out one page, then model 2 is asked
+   for its first page.  Shared cursor (v0): model 2 answers its SECOND configuration.  Cursor per
+   model (F21): its first, exactly as when it is alone (cursor_per_model). *)
+Definition c16_hist : list (which * req) := [(M1, REnum [] 1); (M2, REnum [] 1)].
+
+Theorem cursor_shared_refuted_v0 : exists C1 C2 n h,
+  check_wf C1 n = true /\ check_wf C2 n = true /\ C1 <> C2 /\
+  let d1 := build C1 n in let d2 := build C2 n in
+  let alone := snd (run_reqs_ans d2 (fresh_scratch C2, []) (only M2 h)) in
+  only M2 (snd (proc_run_v0 d1 d2 (fresh_scratch C1, fresh_scratch C2, []) h)) <> alone /\
+  only M2 (snd (proc_run d1 d2 ((fresh_scratch C1, []), (fresh_scratch C2, [])) h)) = alone /\
+  alone = [AEnum (Some (map sort_abs (slice 0 1 (EOr C2 []))))].
+Proof.
+  exists c16_iff, c16_free, 2%nat, c16_hist.
+  split; [vm_compute; reflexivity|]. split; [vm_compute; reflexivity|].
+  split; [discriminate|]. cbv zeta.
+  split; [vm_compute; discriminate|]. split; vm_compute; reflexivity.
+Qed.
 
 Theorem cursor_shared_refuted : exists C1 C2 n A k,
   check_wf C1 n = true /\ check_wf C2 n = true /\ C1 <> C2 /\
